@@ -15,6 +15,7 @@ import (
 	"runtime/debug"
 	"strings"
 	"sync"
+	"sync/atomic"
 	"time"
 
 	"github.com/inconshreveable/log15"
@@ -401,8 +402,8 @@ func c15Open(c *fw.C, pm *protocol.ProtocolManager, label string) *c15Sess {
 	our, theirs := p2p.MsgPipe()
 	s := &c15Sess{c: c, label: label, our: our, done: make(chan struct{}), wake: make(chan struct{}, 1), rdDone: make(chan struct{})}
 	var id discover.NodeID
-	c15PeerSeq++
-	binary.BigEndian.PutUint64(id[:8], c15PeerSeq<<8|0x5a)
+	seq := atomic.AddUint64(&c15PeerSeq, 1)
+	binary.BigEndian.PutUint64(id[:8], seq<<8|0x5a)
 	copy(id[8:], label)
 	peer := p2p.NewPeer(id, "c15-"+label, nil)
 	s.pid = fmt.Sprintf("%x", id[:8])
@@ -465,6 +466,12 @@ func (s *c15Sess) reader() {
 			cb(in)
 		}
 	}
+}
+
+func (s *c15Sess) setOnMsg(f func(in c15In)) {
+	s.mu.Lock()
+	s.onMsg = f
+	s.mu.Unlock()
 }
 
 func (s *c15Sess) setCtx(ctx string, det interface{}) {
